@@ -85,6 +85,20 @@ theorem pipeline_order :
     Gen.exprPatchBody = ["return func(c *conf.Config) { c.Visitors = append(c.Visitors, visitor) }"] :=
   ⟨rfl, rfl⟩
 
+/-- **The patched tree is re-checked.**  Guard structure of `expr.Compile` around the rewriting stages: a
+    failing first check is fatal only when there are no visitors; operators are patched; then every user
+    visitor walks the root slot and the tree is type-checked again *unconditionally* (the guard
+    `len(config.Visitors) >= 0` is always true), an error of that second check being returned — so what
+    is optimised and compiled is a tree whose type annotations belong to the patched tree. -/
+theorem patched_tree_is_rechecked :
+    Gen.compileCheckBlock =
+      ["_, err = checker.Check(tree, config)",
+       "if err != nil && len(config.Visitors) == 0 { return nil, err }",
+       "compiler.PatchOperators(&tree.Node, config)"] ∧
+    Gen.compilePatchBlock =
+      ["if len(config.Visitors) >= 0 { for _, v := range config.Visitors { ast.Walk(&tree.Node, v) } _, err = checker.Check(tree, config) if err != nil { return nil, err } }"] :=
+  ⟨rfl, rfl⟩
+
 /-! ### traversal theorems for the walker the code implements -/
 
 theorem walk_eq_walkU {σ : Type} (v : Visitor σ) (fuel : Nat) : walk Gen.walkTargets v fuel = walkU v fuel := by
